@@ -1205,6 +1205,21 @@ class _AppendLoops(ast.NodeTransformer):
         while i < len(b):
             st = b[i]
             nxt = b[i + 1] if i + 1 < len(b) else None
+            # `d = OrderedDict()` / `dict()` / `{}` directly followed by `for k, v in I: d[k] = v`  ->  `d = OrderedDict(I)` / `dict(I)`
+            if isinstance(st, ast.Assign) and len(st.targets) == 1 and isinstance(st.targets[0], ast.Name) and isinstance(nxt, ast.For) and not nxt.orelse and len(nxt.body) == 1 \
+                    and ((isinstance(st.value, ast.Call) and isinstance(st.value.func, ast.Name) and st.value.func.id in ("OrderedDict", "dict") and not st.value.args and not st.value.keywords)
+                         or (isinstance(st.value, ast.Dict) and not st.value.keys)) \
+                    and isinstance(nxt.target, ast.Tuple) and len(nxt.target.elts) == 2 and all(isinstance(e, ast.Name) for e in nxt.target.elts):
+                name = st.targets[0].id
+                inner = nxt.body[0]
+                kv = [e.id for e in nxt.target.elts]
+                if isinstance(inner, ast.Assign) and len(inner.targets) == 1 and isinstance(inner.targets[0], ast.Subscript) and txt(inner.targets[0].value) == name \
+                        and isinstance(inner.targets[0].slice, ast.Name) and inner.targets[0].slice.id == kv[0] and isinstance(inner.value, ast.Name) and inner.value.id == kv[1] \
+                        and not any(isinstance(x, ast.Name) and x.id == name for x in ast.walk(nxt.iter)):
+                    ctor = st.value.func.id if isinstance(st.value, ast.Call) else "dict"
+                    out.append(ast.copy_location(ast.Assign(targets=st.targets, value=ast.Call(func=ast.Name(id=ctor, ctx=ast.Load()), args=[nxt.iter], keywords=[]), lineno=st.lineno), st))
+                    i += 2
+                    continue
             if isinstance(st, ast.Assign) and len(st.targets) == 1 and isinstance(st.targets[0], ast.Name) and isinstance(st.value, ast.List) and not st.value.elts \
                     and isinstance(nxt, ast.For) and not nxt.orelse and len(nxt.body) == 1:
                 name = st.targets[0].id
